@@ -555,6 +555,9 @@ func c17Diff(a, b []string) string {
 func c17Check(run *Run, s *c17Schema, prev *c17Schema) {
 	sdl := s.sdl()
 	in := map[string]any{"sdl": sdl, "schema": s}
+	if prev != nil {
+		in["previous_schema"] = prev // an engine for this schema is built first (history)
+	}
 	defer func() {
 		if p := recover(); p != nil {
 			run.Violate(Violation{Kind: "oracle", Clause: "no_panic", Input: in, Detail: fmt.Sprint(p)}, "")
@@ -615,7 +618,17 @@ func c17Check(run *Run, s *c17Schema, prev *c17Schema) {
 			known = "C17-deprecation-reason-not-unescaped"
 			gfacts = g2
 		}
-		run.Violate(Violation{Kind: "correspondence", Clause: "generator_exact", Input: in, Detail: "left = generator, right = model: " + c17Diff(gfacts, m.Facts)}, known)
+		// the disagreement judged against the ground truth (the structure the SDL was printed from)
+		if ground := c17GroundFacts(s); known == "" && strings.Join(gfacts, "\n") != strings.Join(ground, "\n") {
+			run.Violate(Violation{Kind: "oracle", Clause: "introspection_lists_exactly_the_schema", Input: in,
+				Detail: "left = generator, right = the generated schema itself: " + c17Diff(gfacts, ground)}, "")
+		} else {
+			run.Violate(Violation{Kind: "correspondence", Clause: "generator_exact", Input: in, Detail: "left = generator, right = model: " + c17Diff(gfacts, m.Facts)}, known)
+		}
+	}
+	if ground := c17GroundFacts(s); strings.Join(ground, "\n") != strings.Join(m.Facts, "\n") {
+		run.Violate(Violation{Kind: "correspondence", Clause: "model_lists_the_generated_schema", Input: in,
+			Detail: "left = the generated schema itself, right = model: " + c17Diff(ground, m.Facts)}, "")
 	}
 	// (R) converter round trip: the document built from the introspection JSON introspects the same
 	conv := introspection.JsonConverter{}
@@ -678,7 +691,12 @@ func c17Check(run *Run, s *c17Schema, prev *c17Schema) {
 		if e2, hit := escKnown(efacts); hit && strings.Join(e2, "\n") == strings.Join(m.Facts, "\n") {
 			known = "C17-deprecation-reason-not-unescaped"
 		}
-		run.Violate(Violation{Kind: "correspondence", Clause: "engine_exact", Input: in, Detail: "left = engine answer, right = model: " + c17Diff(efacts, m.Facts)}, known)
+		if ground := c17GroundFacts(s); known == "" && strings.Join(efacts, "\n") != strings.Join(ground, "\n") {
+			run.Violate(Violation{Kind: "oracle", Clause: "engine_introspection_lists_exactly_the_schema", Input: in,
+				Detail: "left = engine answer, right = the generated schema itself: " + c17Diff(efacts, ground)}, "")
+		} else {
+			run.Violate(Violation{Kind: "correspondence", Clause: "engine_exact", Input: in, Detail: "left = engine answer, right = model: " + c17Diff(efacts, m.Facts)}, known)
+		}
 	}
 }
 
@@ -697,12 +715,16 @@ func runC17(run *Run, replay string) Spec {
 				Violation struct {
 					Input struct {
 						Schema *c17Schema `json:"schema"`
+						Prev   *c17Schema `json:"previous_schema"`
 					} `json:"input"`
 				} `json:"violation"`
 			}
 			if json.Unmarshal(b, &f) == nil && f.Violation.Input.Schema != nil {
 				f.Violation.Input.Schema.bareDep = map[string]bool{}
-				c17Check(run, f.Violation.Input.Schema, nil)
+				if f.Violation.Input.Prev != nil {
+					f.Violation.Input.Prev.bareDep = map[string]bool{}
+				}
+				c17Check(run, f.Violation.Input.Schema, f.Violation.Input.Prev)
 				run.Count("replay")
 			}
 		}
